@@ -439,27 +439,46 @@ func c18Random(c *core.Ctx, idx int) {
 				spec = []string{a, b}
 				args = []any{spec}
 			}
+			specs := [][]string{spec}
+			if r.Chance(1, 3) {
+				// a second specification in the same call; it may reuse a character of the first
+				second := []string{[]string{spec[0], chars[r.Intn(len(chars))]}[r.Intn(2)]}
+				if r.Bool() {
+					second = append(second, "~")
+				}
+				if len(second) == 1 {
+					args = append(args, second[0])
+				} else {
+					args = append(args, second)
+				}
+				specs = append(specs, second)
+			}
 			s.SetEncap(args...)
-			log = append(log, fmt.Sprintf("SetEncap(%v)", spec))
+			log = append(log, fmt.Sprintf("SetEncap(%v)", specs))
 			if !ro {
-				used := false
-				for _, e := range enc {
-					for _, x := range e {
-						for _, y := range spec {
-							if x == y {
-								used = true
+				for _, sp := range specs {
+					used := false
+					for _, e := range enc {
+						for _, x := range e {
+							for _, y := range sp {
+								if x == y {
+									used = true
+								}
 							}
 						}
 					}
-				}
-				if !used {
-					enc = append(enc, spec)
+					if !used {
+						enc = append(enc, sp)
+					}
 				}
 			}
 		case 7:
 			switch r.Intn(3) {
 			case 0:
 				mine := stackage.Auxiliary{"k": step}
+				if r.Chance(1, 3) {
+					mine = stackage.Auxiliary{} // allocated but empty: still the caller's map
+				}
 				s.SetAuxiliary(mine)
 				log = append(log, "SetAuxiliary(map)")
 				if !ro {
